@@ -244,6 +244,31 @@ Definition joint_samples (lfact : mat) (mean_cols : list vec) (zc : list (list v
   let resh := chunk num_samples (length mean_cols) prod in   (* reshape (n_test, m, num_samples) *)
   map2 (fun mj row => map (fun v => vadd v mj) row) mean_cols resh.
 
+(* ---- custom_op.AddJitterOp: the jitter search (custom_op.py:97-126) ------------------------------------ *)
+(* [ok A] = "spl.cholesky(A, lower=True) does not raise" (oracle); [within j] = "j <= jitter_upperbound" (oracle:
+   the carrier has no order).  Jitters tried: 0, j0, j0*growth, j0*growth^2, ...; the matrix tried is always
+   x + (sigsq_init + jitter) * Id built from the ORIGINAL x.  None = the final assertion fails (upper bound
+   reached) or the fuel of this model is exhausted. Returns (x_plus_constant, sigsq_final). *)
+Fixpoint jitter_loop (ok : mat -> bool) (within : T -> bool) (K : mat) (sigsq growth : T) (fuel : nat) (jitter : T)
+  : option (mat * T) :=
+  match fuel with
+  | O => None
+  | S f =>
+      if within jitter then
+        let A := add_diag K (sigsq + jitter) in
+        if ok A then Some (A, sigsq + jitter) else jitter_loop ok within K sigsq growth f (jitter * growth)
+      else None
+  end.
+Definition add_jitter (ok : mat -> bool) (within : T -> bool) (K : mat) (sigsq j0 growth : T) (fuel : nat)
+  : option (mat * T) :=
+  if within z0 then
+    let A := add_diag K (sigsq + z0) in
+    if ok A then Some (A, sigsq + z0) else jitter_loop ok within K sigsq growth fuel j0
+  else None.
+(* the k-th jitter of the documented sequence *)
+Fixpoint jpos (j0 growth : T) (k : nat) : T := match k with O => j0 | S k' => jpos j0 growth k' * growth end.
+Definition jseq (j0 growth : T) (k : nat) : T := match k with O => z0 | S k' => jpos j0 growth k' end.
+
 (* ---- kernel objects: forward, diagonal and the diagonal_depends_on_X flag ---------------------- *)
 (* k_diag is KernelFunction.diagonal for ONE input row (diagonal(X) = map k_diag X);
    k_dep is diagonal_depends_on_X() *)
@@ -358,6 +383,13 @@ Definition gpredict (jit floor : T) (m : gmodel) (Xt : list vec) : option (list 
       Some (predict_posterior_marginals L P (gp_kcols jit p d Xt) (map (fun _ => gp_mean p) Xt)
                                         (map (fun _ => o1 * gp_cs p) Xt) floor)
   end.
+(* ---- gpr_mcmc.py: GPRegressionMCMC keeps ONE posterior state per retained hyper-parameter sample; each state
+   owns its kernel / mean parameters (a fresh likelihood per sample) ---------------------------------------- *)
+Definition mcmc_states (jit : T) (samples : list gparams) (d : gdata) : list gmodel :=
+  map (fun p => mkGM p (Some (d, gp_post jit p d))) samples.
+(* GaussianProcessModel.predict: one (means, variances) pair per state *)
+Definition mcmc_predict (jit floor : T) (states : list gmodel) (Xt : list vec) : list (option (list vec * vec)) :=
+  map (fun m => gpredict jit floor m Xt) states.
 End Generic.
 
 Arguments map2 {A B C} f a b.
